@@ -327,6 +327,7 @@ fn main() -> Result<(), Box<dyn std::error::Error>> {
         "blake3_neon",
         "blake3_wasm32_simd",
         "blake3_team_blake3_verif",
+        "blake3_team_blake3_verif_lenient",
     ];
     for cfg_name in all_cfgs {
         // https://doc.rust-lang.org/cargo/reference/build-scripts.html#outputs-of-the-build-script
